@@ -608,3 +608,195 @@ pub fn dict_worker(ctx: &mut Ctx) {
         ctx.report.notes.push(format!("harper_wasm::Linter import_words histories ({} re-cased forms of capitalised-only curated entries, {} new words): every word export_words lists must be accepted in that spelling by the linter's merged dictionary", lowered.len(), novel.len()));
     }
 }
+
+// ------------------------------------------------------------------------------------------
+// End to end (C13): what the JS API and the CLI path report is one overlap resolution of the lints the
+// rules produce for *this* document.
+//
+// Produced = the union, over the rules that are on by default, of what a linter with only that rule
+// switched on returns for the document (so nothing any other rule, any earlier document or any
+// resolution step inside the producer could have removed is missing).  Reported = a long-lived
+// harper_wasm::Linter::lint, and a long-lived LintGroup + remove_overlaps (what harper-cli does).
+// Clauses: reported is a sub-multiset of produced, reported lints share no character, every
+// produced lint that is not reported starts inside (or at the start of) a reported one.
+
+type Key = (usize, usize, String);
+
+fn three_clauses(produced: &[Key], reported: &[Key]) -> Option<(&'static str, String)> {
+    let mut used = vec![false; produced.len()];
+    for o in reported {
+        match produced.iter().enumerate().find(|(i, x)| !used[*i] && *x == o) {
+            Some((i, _)) => used[i] = true,
+            None => return Some(("subset", format!("reported lint {}..{} {:?} is not among the lints the rules produce for this text", o.0, o.1, o.2))),
+        }
+    }
+    for a in 0..reported.len() {
+        for b in a + 1..reported.len() {
+            if reported[a].0.max(reported[b].0) < reported[a].1.min(reported[b].1) {
+                return Some(("disjoint", format!("reported lints {}..{} and {}..{} share a character", reported[a].0, reported[a].1, reported[b].0, reported[b].1)));
+            }
+        }
+    }
+    for (i, x) in produced.iter().enumerate() {
+        if used[i] {
+            continue;
+        }
+        if !reported.iter().any(|k| k.0 <= x.0 && (x.0 < k.1 || x.0 == k.0)) {
+            return Some(("dropped.uncovered", format!("the rules produce {}..{} {:?} for this text; it is not reported and it does not start inside any reported lint ({} reported)", x.0, x.1, x.2, reported.len())));
+        }
+    }
+    None
+}
+
+pub fn e2e_worker(ctx: &mut Ctx) {
+    use harper_core::linting::{LintGroup, Linter as CoreLinter};
+    use harper_core::parsers::PlainEnglish;
+    use harper_core::{remove_overlaps, Document, FstDictionary};
+    let corpus = load_corpus();
+    let dict = FstDictionary::curated();
+    let (wd, cd) = [
+        (harper_wasm::Dialect::American, harper_core::Dialect::American),
+        (harper_wasm::Dialect::British, harper_core::Dialect::British),
+        (harper_wasm::Dialect::Australian, harper_core::Dialect::Australian),
+        (harper_wasm::Dialect::Canadian, harper_core::Dialect::Canadian),
+    ][(ctx.shard as usize) % 4];
+    // the rules that are on by default
+    let on: Vec<String> = {
+        let mut g = LintGroup::new_curated(dict.clone(), cd);
+        g.config.fill_with_curated();
+        let keys: Vec<String> = g.iter_keys().map(|s| s.to_string()).collect();
+        keys.into_iter().filter(|k| g.config.is_rule_enabled(k)).collect()
+    };
+    let mut refg = LintGroup::new_curated(dict.clone(), cd);
+    refg.set_all_rules_to(Some(false));
+    let mut lin = Linter::new(wd);
+    let mut lg = LintGroup::new_curated(dict.clone(), cd);
+    let episodes = ctx.share(400, 12_000);
+    let mut rng = ctx.rng("wasm-e2e");
+    let fillers = ["and so on", "as we said before", "in the end", "for what it is worth", "more or less", "at that time of the year"];
+    for ep in 0..episodes {
+        let eseed = rng.next();
+        let mut r = Rng(eseed);
+        if !ctx.begin_case(|| json!({"fam": "e2e-episode", "episode_seed": eseed}).to_string()) {
+            continue;
+        }
+        // a small pool of clauses (pieces of rule sentences between commas), some with a word doubled
+        let mut pool: Vec<String> = Vec::new();
+        while pool.len() < 6 {
+            let s = r.pick(&corpus.sentences);
+            for piece in s.split([',', ';', ':']) {
+                let piece = piece.trim().trim_end_matches(['.', '!', '?']);
+                let words: Vec<&str> = piece.split(' ').filter(|w| !w.is_empty()).collect();
+                if words.len() < 2 || words.len() > 14 || piece.contains('\n') {
+                    continue;
+                }
+                pool.push(piece.to_string());
+                // the same clause with one of its words doubled (a lint of a whole-document rule reaching into the clause)
+                let at = r.below(words.len());
+                let mut w2: Vec<&str> = words.clone();
+                w2.insert(at, words[at]);
+                pool.push(w2.join(" "));
+            }
+        }
+        let ndocs = r.range(6, 14);
+        for d in 0..ndocs {
+            // sentences of 1-4 clauses; long ones first or last (a rule with a length threshold covers the whole sentence)
+            let mut text = String::new();
+            for si in 0..r.range(1, 3) {
+                if si > 0 {
+                    text.push(' ');
+                }
+                let nclauses = r.range(1, 4);
+                let long = match r.below(4) {
+                    0 => true,
+                    1 => d < ndocs / 2,
+                    _ => false,
+                };
+                let mut sent = String::new();
+                for ci in 0..nclauses {
+                    if ci > 0 {
+                        sent.push_str(", ");
+                    }
+                    sent.push_str(r.pick(&pool).as_str());
+                }
+                if long {
+                    let mut words = sent.split(' ').count();
+                    while words < 42 {
+                        let f = *r.pick(&fillers);
+                        sent.push_str(", ");
+                        sent.push_str(f);
+                        words += f.split(' ').count();
+                    }
+                }
+                let mut cs = sent.chars();
+                if let Some(f) = cs.next() {
+                    text.extend(f.to_uppercase());
+                    text.push_str(cs.as_str());
+                }
+                text.push_str(r.pick_str(&[".", ".", "!", "?", ""]));
+            }
+            ctx.report.evaluations += 1;
+            let res = guarded(|| {
+                let doc = Document::new(&text, &PlainEnglish, &dict);
+                let mut produced: Vec<Key> = Vec::new();
+                let mut prev: Option<&String> = None;
+                for k in &on {
+                    if let Some(p) = prev {
+                        refg.config.set_rule_enabled(p, false);
+                    }
+                    refg.config.set_rule_enabled(k, true);
+                    prev = Some(k);
+                    for l in refg.lint(&doc) {
+                        produced.push((l.span.start, l.span.end, format!("{} | {}", l.lint_kind.to_string_key(), l.message)));
+                    }
+                }
+                if let Some(p) = prev {
+                    refg.config.set_rule_enabled(p, false);
+                }
+                let js: Vec<Key> = lin.lint(text.clone(), Language::Plain).iter().map(|l| (l.span().start, l.span().end, format!("{} | {}", l.lint_kind(), l.message()))).collect();
+                let mut cl = {
+                    let temp = lg.config.clone();
+                    lg.config.fill_with_curated();
+                    let v = lg.lint(&doc);
+                    lg.config = temp;
+                    v
+                };
+                remove_overlaps(&mut cl);
+                let cli: Vec<Key> = cl.iter().map(|l| (l.span.start, l.span.end, format!("{} | {}", l.lint_kind.to_string_key(), l.message))).collect();
+                (produced, js, cli)
+            });
+            let Ok((produced, js, cli)) = res else {
+                ctx.report.count("panics(see C01)", 1);
+                lin = Linter::new(wd);
+                lg = LintGroup::new_curated(dict.clone(), cd);
+                refg = LintGroup::new_curated(dict.clone(), cd);
+                refg.set_all_rules_to(Some(false));
+                continue;
+            };
+            ctx.report.count("e2e_produced_lints", produced.len() as u64);
+            if produced.len() > js.len() {
+                ctx.report.count("e2e_docs_with_dropped_lints", 1);
+                let mut h = 0x13u64;
+                let base = produced.iter().map(|k| k.0).min().unwrap_or(0);
+                let mut sp: Vec<(usize, usize)> = produced.iter().map(|k| (k.0 - base, k.1 - base)).collect();
+                sp.sort();
+                for (a, b) in sp {
+                    h = fnv_mix(fnv_mix(h, a as u64), b as u64);
+                }
+                ctx.report.nontrivial(h);
+            }
+            for (who, rep) in [("js", &js), ("cli-path", &cli)] {
+                if let Some((clause, detail)) = three_clauses(&produced, rep) {
+                    ctx.report.finding("C13", &format!("e2e.{clause}@{who}"), text.len() + d * 1000, || json!({"episode_seed": eseed, "document_index_in_episode": d, "text": text, "dialect": format!("{:?}", cd)}), || detail.clone());
+                }
+            }
+            if ctx.report.samples.len() < 3 && produced.len() > js.len() {
+                ctx.report.samples.push(json!({"fam": "e2e", "text": truncate_str(&text, 200), "produced": produced.len(), "reported_js": js.len(), "reported_cli_path": cli.len()}));
+            }
+        }
+        ctx.end_case();
+    }
+    if ctx.shard == 0 {
+        ctx.report.notes.push(format!("end to end: {} default-on rules run one at a time give the produced lints of each document; a long-lived harper_wasm::Linter and a long-lived LintGroup + remove_overlaps give the reported ones; episodes reuse a small clause pool inside short and > 40-word sentences", on.len()));
+    }
+}
